@@ -109,10 +109,11 @@ def parts(t):
 
 class SV(object):
     """symbolic value"""
-    __slots__ = ('t', 'z')
+    __slots__ = ('t', 'z', 'shares')
 
     def __init__(self, t, z):
         self.t, self.z = t, z
+        self.shares = None        # {field: place} when a field of this record value may be an object shared with `place` (see Contract.result_shares)
 
     def __repr__(self): return 'SV(%s, %s)' % (self.t, self.z)
 
@@ -257,6 +258,7 @@ defrecord('PDA', Q=SET(ATOM), Sigma=SET(ATOM), Gamma=SET(ATOM), delta=MAP(KEY3, 
 defrecord('PDAState', q=ATOM, stack=WORD)
 defrecord('GNFA', Q=SET(ATOM), Sigma=SET(ATOM), delta=MAP(KEY2, REGEXP, 'zero'), q_start=ATOM, q_accept=ATOM, epsilon=ATOM)
 defrecord('IdGen', index=INT)
+defrecord('RxGen', Sigma=SET(ATOM), id_generator=REC('IdGen'))
 defrecord('Alternative', symbols=LIST(ATOM))
 defrecord('Rule', variable=ATOM, alternative=REC('Alternative'))
 defrecord('CFG', V=SET(ATOM), Sigma=SET(ATOM), R=LIST(REC('Rule')), S=ATOM, epsilon=ATOM)
